@@ -38,7 +38,7 @@ def run(job):
             for pr in os.environ.get('SWEEP_PROPS','C05 C06 C09 C10 C11 C18').split():
                 r=subprocess.run(['/verif/bin/otelcheck','-property',pr,'-tier','quick','-repo',wt,'-verif',tv],capture_output=True,text=True)
                 if r.returncode!=0:
-                    rules=sorted(set(re.findall(r': (C\d+\.\d+)(?: \(undecided\))?:',r.stdout)))
+                    rules=sorted(set(re.findall(r': ((?:C\d+|RT)\.\d+)(?: \(undecided\))?:',r.stdout)))
                     al.append(pr+':'+','.join(rules))
             res=('survived',' '.join(al))
     subprocess.check_call(['git','-C',wt,'checkout','-q','--','.'])
